@@ -486,6 +486,10 @@ var directed = map[string][]string{
 	"S1018": {
 		"bs := []int{1, 2, 3, 4, 5, 6}\n\tfor i := 0; i < x; i++ {\n\t\tbs[i] = bs[y+i]\n\t}\n\treturn fmt.Sprint(bs)",
 	},
+	"QF1005": {
+		"return math.Pow(fx*1.1, 2)",   // x*y*x*y is not (x*y)*(x*y) in floating point
+		"return math.Pow(fy*0.7, 3)",
+	},
 	"QF1012": {
 		"mkw().Write([]byte(fmt.Sprintf(\"%d\", ti(1, x))))\n\treturn nil",
 		"ws := map[int]valw{1: {&sink}}\n\tws[1].Write([]byte(fmt.Sprint(ti(1, x))))\n\treturn nil",
